@@ -228,6 +228,45 @@ class RecTarget:
         return self.data[idx]
 
 
+class RecNdTarget(np.ndarray):
+    """A real ndarray target (dask tokenizes it by content, forces local schedulers for it, ...) that still counts
+    writes per cell.  Two of these with the same shape start with equal content."""
+
+    def __new__(cls, shape, dtype="f8", lock=None):
+        obj = np.full(tuple(shape), RecTarget.SENTINEL, dtype="f8").view(cls)
+        obj.count = np.zeros(tuple(shape), dtype=np.int64)
+        obj.events = []
+        obj._loglock = threading.Lock()
+        obj._guard = lock
+        return obj
+
+    def __array_finalize__(self, obj):
+        if obj is not None and not hasattr(self, "events"):
+            self.count = getattr(obj, "count", None)
+            self.events = getattr(obj, "events", [])
+            self._loglock = getattr(obj, "_loglock", threading.Lock())
+            self._guard = getattr(obj, "_guard", None)
+
+    @property
+    def data(self):
+        return self.view(np.ndarray)
+
+    def __setitem__(self, idx, value):
+        locked = None
+        if self._guard is not None:
+            try:
+                locked = self._guard.locked()
+            except Exception:
+                locked = None
+        if not isinstance(idx, tuple):
+            idx = (idx,)
+        with self._loglock:
+            self.events.append(Event("write", PHASE["now"], idx, int(np.size(value)), None, locked))
+            if self.count is not None:
+                self.count[idx] += 1
+        np.ndarray.__setitem__(self, idx, value)
+
+
 class BlockFnLog:
     def __init__(self):
         self.calls = []
